@@ -8,7 +8,7 @@ for f in seeded/*/replay-C*.json; do
   [ -f "$f" ] || continue
   seed=$(basename $(dirname $f)); id=$(basename $f .json); id=${id#replay-}
   jq -e '.tape != null' $f >/dev/null || { echo "$seed $id: no tape (enumerated stage)"; continue; }
-  out=$(./check $id quick --replay $f 2>&1); rc=$?
+  out=$(./check $id quick --replay /verif/$f 2>&1); rc=$?
   if [ $rc -eq 0 ]; then mkdir -p corpus/$id; jq '{property, tape, signature, origin: "minimal tape that failed with seeded change '$seed' applied; passes on the real tree"}' $f > corpus/$id/$seed.json; echo "$seed $id: added"
   else echo "$seed $id: replay on the real tree rc=$rc (not added): $(echo "$out" | tail -1 | cut -c1-200)"; fi
 done
